@@ -4,7 +4,7 @@ from lib.coqterm import cbytes, cbool, cN, clist, copt, cpair, hx, unhx
 
 ID = "C52"
 QUICK_N = 1000
-THOROUGH_N = 60000
+THOROUGH_N = 45000
 SHARD = 100
 COQ_PRELUDE = "From MV Require Import Model.ServerPlayback.\n"
 RULE = ("85% histories: a random option set, a load of 1-8 recordings (about 15% without response, 5% non-http "
